@@ -153,7 +153,8 @@ def render_def(prog, i):
     first = ("x %s %d" % (nd["op"], nd["const"])) if not nd["swap"] else ("%d %s x" % (nd["const"], nd["op"]))
     L.append("    r = %s" % first)
     if nd["tconst"]:
-        L.append("    r += %s(%r)" % (nd.get("tfn", "sum"), tuple(nd["tconst"])))
+        L.append("    tc_ = %r" % (tuple(nd["tconst"]),))
+        L.append("    r += %s(tc_) + tc_[0] * 3 - tc_[-1]" % nd.get("tfn", "sum"))  # order-sensitive
     if nd["sconst"]:
         L.append("    if \"alpha\" in {%s}:" % ", ".join(repr(s) for s in nd["sconst"]))
         L.append("        r += 1")
@@ -317,7 +318,7 @@ def apply_special(rng, prog, kind):
     raise ValueError(kind)
 
 
-EDIT_KINDS = ["const", "tconst", "builtin", "sconst", "nested_const", "op", "swap", "add_param", "default", "kwdefault",
+EDIT_KINDS = ["const", "tconst", "tperm", "builtin", "sconst", "nested_const", "op", "swap", "add_param", "default", "kwdefault",
               "add_call", "remove_call", "retarget_call", "retarget_alias", "var_value", "var_mutate", "version_bump",
               "hidden_target"]
 
@@ -346,6 +347,12 @@ def apply_edit(rng, prog, kind=None):
         for i in cand:
             if nodes[i]["tconst"]:
                 nodes[i]["tconst"][rng.randrange(len(nodes[i]["tconst"]))] += rng.randint(1, 4)
+                return done(i)
+    if kind == "tperm":  # same elements, other order
+        for i in cand:
+            t = nodes[i]["tconst"]
+            if t and t[0] != t[-1]:
+                nodes[i]["tconst"] = t[1:] + t[:1] if len(t) > 2 and rng.random() < 0.5 else list(reversed(t))
                 return done(i)
     if kind == "builtin":  # changes nothing but a name in co_names
         for i in cand:
